@@ -347,12 +347,19 @@ func (q *ProvideQueue) DrainDatastore(ctx context.Context, d ds.Batching) error 
 			return fmt.Errorf("error reading query result: %w", result.Error)
 		}
 
-		// Key format: "/position/prefix"
+		// Key format: "/position/prefix". An entry persisted under the empty
+		// prefix has the key "/position": ds.NewKey cleans the trailing slash of
+		// "position/" away.
 		parts := strings.Split(strings.TrimPrefix(result.Key, "/"), "/")
-		if len(parts) != 2 {
+		var prefix bitstr.Key
+		switch len(parts) {
+		case 1:
+			// empty prefix
+		case 2:
+			prefix = bitstr.Key(parts[1])
+		default:
 			continue // Skip invalid keys
 		}
-		prefix := bitstr.Key(parts[1])
 
 		// Decode concatenated multihashes
 		keys, err := decodeMultihashes(result.Value)
